@@ -28,6 +28,30 @@ ASSUMPTIONS = ["class names may differ between the mutated design and its twin (
 # generation
 # ---------------------------------------------------------------------------
 
+def _nelem(dims):
+  n = 1
+  for d in dims:
+    n *= d
+  return n
+
+
+def _unflat(i, dims):
+  out = []
+  for d in reversed(dims):
+    out.append(i % d)
+    i //= d
+  return out[::-1]
+
+
+def _flat(idx, dims):
+  if isinstance(idx, int):
+    return idx
+  k = 0
+  for j, d in zip(idx, dims):
+    k = k * d + j
+  return k
+
+
 def positions(spec):
   """all replaceable instance positions as (path steps, current class)"""
   out = []
@@ -36,9 +60,10 @@ def positions(spec):
     cd = spec["comps"][cname]
     for sb in cd["subs"]:
       if sb["dims"]:
-        cl = sb.get("cls_list") or [sb["cls"]] * sb["dims"][0]
-        for i in range(sb["dims"][0]):
-          p = path + [[sb["name"], i]]
+        cl = sb.get("cls_list") or [sb["cls"]] * _nelem(sb["dims"])
+        for i in range(_nelem(sb["dims"])):
+          # 1-D: integer index (as in older replay files); lists of lists: list of indices
+          p = path + [[sb["name"], i if len(sb["dims"]) == 1 else _unflat(i, sb["dims"])]]
           out.append((p, cl[i]))
           if depth < 2:
             walk(cl[i], p, depth + 1)
@@ -55,7 +80,7 @@ def gen_case(R, tier):
   c = R("case")
   for _ in range(30):
     prof = designgen.profile(c.choice(["acyclic", "ff_heavy", "shapes"]))
-    prof.update(n_child_classes=(1, 3), p_list=0.4, p_sub2d=0.0)
+    prof.update(n_child_classes=(1, 3), p_list=0.4, p_sub2d=0.2)
     spec = designgen.DesignGen(c, prof, uid="r%x" % (R.seed & 0xffffff)).gen()
     if len(spec["comps"]) >= 2:
       break
@@ -112,11 +137,11 @@ def apply_replacement(spec, path, newcls, tag):
       if len(steps) == 1:
         target = newcls
       else:
-        cur = (sb.get("cls_list") or [sb["cls"]] * (sb["dims"][0] if sb["dims"] else 1))[idx or 0] if sb["dims"] else sb["cls"]
+        cur = (sb.get("cls_list") or [sb["cls"]] * _nelem(sb["dims"]))[_flat(idx or 0, sb["dims"])] if sb["dims"] else sb["cls"]
         target = rec(cur, steps[1:])
       if sb["dims"]:
-        cl = list(sb.get("cls_list") or [sb["cls"]] * sb["dims"][0])
-        cl[idx] = target
+        cl = list(sb.get("cls_list") or [sb["cls"]] * _nelem(sb["dims"]))
+        cl[_flat(idx, sb["dims"])] = target
         sb["cls_list"] = cl
       else:
         sb["cls"] = target
@@ -193,7 +218,9 @@ def canon(top):
                             for b, v in reads.items())
   d["upblk_writes"] = sorted((host.get(b, ("?", getattr(b, "__name__", "?"))), sorted(repr(x) for x in v))
                              for b, v in writes.items())
-  d["upblk_calls"] = sorted((host.get(b, ("?", getattr(b, "__name__", "?"))), sorted(repr(x) for x in v))
+  # callees are method ports (named objects) or @s.func helpers (plain functions: name, not address)
+  cn = lambda x: "func:" + x.__name__ if callable(x) and hasattr(x, "__code__") else repr(x)
+  d["upblk_calls"] = sorted((host.get(b, ("?", getattr(b, "__name__", "?"))), sorted(cn(x) for x in v))
                             for b, v in calls.items())
   uu, rdu, wru, mm = top.get_all_explicit_constraints()
   bn = lambda b: host.get(b, ("?", getattr(b, "__name__", "?")))
@@ -270,7 +297,8 @@ def obj_at(top, path):
   for name, idx in path:
     o = getattr(o, name)
     if idx is not None:
-      o = o[idx]
+      for j in ([idx] if isinstance(idx, int) else idx):
+        o = o[j]
   return o
 
 
@@ -398,7 +426,8 @@ def _is_subsignal_of_replaced(entry, paths, twin):
   if not hasattr(o, "is_top_level_signal") or o.is_top_level_signal():
     return False
   for p in paths:
-    pre = "s" + "".join(".%s" % n + ("[%d]" % i if i is not None else "") for n, i in p)
+    pre = "s" + "".join(".%s" % n + ("" if i is None else "".join("[%d]" % j for j in ([i] if isinstance(i, int) else i)))
+                        for n, i in p)
     if name.startswith(pre + "."):
       return True
   return False
